@@ -87,6 +87,8 @@ def serve(sock_path: str, repo: str) -> None:
                 line = json.dumps(ev, sort_keys=True, default=str)
                 if base:
                     line = line.replace(base, "{B}")
+                    # (archive member names are the same path without the leading slash)
+                    line = line.replace(base.lstrip("/"), "{B}")
                 if nonce:
                     line = line.replace(nonce, "{N}")
                 out.write(line.encode() + b"\n")
